@@ -365,6 +365,29 @@ def exportBBox (o : TagsOpts) (cast raiseTime : Bool) (sr : Rat) (a : Ann) : Exc
     let label ← labelFromTags o a.tags
     mkBBox b.st b.en b.lo high label
 
+/-! ## export: the decisions of the converters as functions of the geometry's type tag
+    (tied to the source by symbolic tracing for every type × switch combination) -/
+
+/-- the numbers `segment_from_annotation` hands to `crowsetta.Segment` for the time span `(s, e)`:
+    the two seconds fields and the two arguments of `int()` (the sample fields are `pyInt` of them) -/
+def segFields (sr s e : Rat) : Rat × Rat × Rat × Rat := (s, e, s * sr, e * sr)
+
+/-- the time span `convert_geometry_to_interval` chooses, as a function of the geometry's type tag,
+    the coordinates `(s, e)` of a `TimeInterval` and the bounds `compute_bounds` returned; `none` =
+    `ValueError`.  (pydantic's validation of the cast interval is `mkInterval`, see `geomToInterval`.) -/
+def spanOf (tag : String) (cast : Bool) (s e : Rat) (b : Bounds) : Option (Rat × Rat) :=
+  if tag = "TimeInterval" then some (s, e) else if cast = true then some (b.st, b.en) else none
+
+/-- `convert_geometry_to_bbox` raises `ValueError`: decided by the type tag and the two switches -/
+def boxRefused (tag : String) (cast raiseTime : Bool) : Bool :=
+  (tag != "BoundingBox" && !cast) || ((tag == "TimeInterval" || tag == "TimeStamp") && raiseTime)
+
+/-- `bbox_from_annotation` after `compute_bounds` returned `b`: the switches, the Nyquist cap and
+    crowsetta's own validators -/
+def boxOf (tag : String) (cast raiseTime : Bool) (b : Bounds) (sr : Rat) (label : String) : Except Err BBox :=
+  if boxRefused tag cast raiseTime = true then .error .invalid
+  else mkBBox b.st b.en b.lo (min b.hi (sr / 2)) label
+
 /-- the loop of `sequence_from_annotations` / `annotation_from_clip_annotation`: results in
     order; a `ValueError` is skipped when `ignore_errors`, every other error (and a `ValueError`
     when not ignoring) is raised at the first element that produces it -/
@@ -432,6 +455,16 @@ def importAnnotation (o : LabelOpts) (adjust : Bool) (r : Rec) (ca : CrowAnn) : 
     let boxes ← ca.bboxes.mapM (importBBox o adjust r)
     let seqs ← importSeqs o adjust r ca.seqs
     return ⟨boxes ++ seqs.flatten, seqs⟩
+
+/-- `annotation_to_clip_annotation(annot, recording=None, recording_kwargs=…)`: the recording is
+    loaded from the notated path by `Recording.from_file` (outside the model: the parameter `load`;
+    its contract `(load p).path = p` is a hypothesis of the theorems and is evaluated at run time);
+    no notated path is a `ValueError` -/
+def importAnnotationLoad (o : LabelOpts) (adjust : Bool) (load : String → Rec) (ca : CrowAnn) :
+    Except Err ClipAnn :=
+  match ca.notatedPath with
+  | none => .error .invalid
+  | some p => importAnnotation o adjust (load p) ca
 
 /-! ## export after import (the round trip of the property) -/
 
